@@ -357,6 +357,8 @@ def oracle_c15(dump, max_inputs=5):
             try:
                 at = c.evaluate_at(list(vals), pos)
             except Exception as e:  # noqa: BLE001
+                if None in combo:
+                    continue         # evaluate_at is documented for Boolean vectors; refusing Undefined is legal
                 return f'evaluate_at: raises {type(e).__name__} at output position {pos} under {combo}'
             if st_name(at) == 'U':
                 if None not in combo:
